@@ -354,8 +354,8 @@ def taint_plan(chk, r):
 def check_C07(chk):
     r = Rng(chk.seed ^ 0xC07)
     shapes = taint_plan(chk, r)
-    cfgs = [('prod-taint', 'gcc', '-O3 -g'), ('alt3-taint', 'clang', '-O3 -g')] + \
-           ([('o2-taint', 'gcc', '-O2 -g'), ('alt-taint', 'clang', '-O2 -g')] if chk.thorough else [])
+    cfgs = [('prod-taint', 'gcc', '-O3 -g'), ('alt3-taint', 'clang', '-O3 -gdwarf-4')] + \
+           ([('o2-taint', 'gcc', '-O2 -g'), ('alt-taint', 'clang', '-O2 -gdwarf-4')] if chk.thorough else [])
     total_calls = 0
     for name, cc, flags in cfgs:
         CONFIGS[name] = dict(cc=cc, flags=flags)
@@ -402,11 +402,18 @@ def check_C07(chk):
                    dict(op='plimit', arg=32), dict(op='pgen', arg=100), dict(op='preseed'), dict(op='pgen', arg=16)]
             lines.extend(history_lines(r, f"tr{pi}", ops, dels, obj=pi))
         total_calls += len(lines)
-        parts = chunks(lines[len(enc_lines):], max(1, len(lines) // NCPU + 1))
-        parts = [lines[:len(enc_lines)]] + [[ln for ln in lines if ln.startswith('script')][:0] + p for p in parts]
-        # PRNG histories must stay together with their script line: keep whole histories in one part
-        prng = [ln for ln in lines if re.match(r'(script|pinit|pgen|pfeed|preseed|plimit|pfree)\b', ln)]
-        parts = [[ln for ln in p if ln not in prng] for p in parts] + [prng]
+        # units that must stay in one process: a PRNG history with its script; everything else is stateless
+        units, cur = [], None
+        for ln in lines:
+            if ln.startswith('script'):
+                cur = [ln]
+                units.append(cur)
+            elif re.match(r'(pinit|pgen|pfeed|preseed|plimit|pfree)\b', ln) and cur is not None:
+                cur.append(ln)
+            else:
+                units.append([ln])
+        nparts = min(NCPU, max(1, len(units) // 20))
+        parts = [[ln for u in units[i::nparts] for ln in u] for i in range(nparts)]
 
         def vg(part_i):
             i, part = part_i
@@ -494,7 +501,8 @@ def check_C19(chk):
     else:
         if not re.search(r'Invariant (SerialEquivalence|NoHeap|NoGlobals) is violated|invariant of (NoHeap|NoGlobals) is equal to FALSE', rm['out']):
             raise MachineryError("MC_Conc failed to run:\n" + rm['out'][-2000:])
-        which = re.search(r'(SerialEquivalence|NoHeap|NoGlobals)', rm['out']).group(1)
+        mm = re.search(r'Invariant (\w+) is violated|invariant of (\w+) is equal to FALSE', rm['out'])
+        which = mm.group(1) or mm.group(2)
         trace = '\n'.join(l for l in rm['out'].splitlines() if l.startswith('State ') or 'result' in l)[:1500]
         chk.cov['states'] += max(1, rm['distinct']); chk.cov['transitions'] += max(1, rm['generated'])
         chk.violation(f"MC_Conc: invariant {which} is violated with the symbol table of the built objects: writable static storage "
@@ -535,13 +543,13 @@ def check_C19(chk):
                 f"hkdf id=u{tag}d len=20 key={datav(r, 8)} salt={datav(r, kl)} info=-",
                 f"enc id=u{tag}e mode=siv v=256 k={r.hex(32)} n={r.hex(12)} ad={datav(r, 3)} m={datav(r, 9)}"]
     base = []
-    k32 = r.hex(16)
+    k16 = r.bytes(16)
     for kl in (65, 70, 100, 200):
         base += [f"hmac id=b-h{kl} k={datav(r, kl)} m={datav(r, 20)}", f"pbkdf2 id=b-p{kl} len=40 count=3 pw={datav(r, kl)} salt={datav(r, 6)}",
                  f"hkdf id=b-k{kl} len=50 key={datav(r, 10)} salt={datav(r, kl)} info=01"]
     for v in (128, 192, 256):
-        base += [f"enc id=b-e{v}x mode=aead v={v} k={k32}{r.hex(KLEN[v] - 16)} n={r.hex(12)} ad={datav(r, 6)} m={datav(r, 13)}",
-                 f"enc id=b-s{v}x mode=siv v={v} k={k32}{r.hex(KLEN[v] - 16)} n={r.hex(12)} ad={datav(r, 6)} m={datav(r, 13)}"]
+        base += [f"enc id=b-e{v}x mode=aead v={v} k={hx(k16 + r.bytes(KLEN[v] - 16))} n={r.hex(12)} ad={datav(r, 6)} m={datav(r, 13)}",
+                 f"enc id=b-s{v}x mode=siv v={v} k={hx(k16 + r.bytes(KLEN[v] - 16))} n={r.hex(12)} ad={datav(r, 6)} m={datav(r, 13)}"]
     base += [f"hash id=b-hash m={datav(r, 40)}"]
     lines = ["reset id=base"] + base + ["reset id=again"]
     for i, ln in enumerate(base):
